@@ -34,6 +34,16 @@ type Type struct {
 	Decl   *Decl   // Named
 	Fields []Field // UStruct
 	Text   string  // Func / Chan spelled out
+	// Alias: the type is spelled through an alias declaration of the subject package (type A0 = <this type>).
+	// An alias denotes the very same type, so everything structural ignores it; only Str prints the alias.
+	Alias string
+}
+
+// Aliased returns a copy of the type that is spelled through the alias.
+func (t *Type) Aliased(name string) *Type {
+	c := *t
+	c.Alias = name
+	return &c
 }
 
 // Field of a struct.
@@ -102,6 +112,12 @@ func (q Qual) declName(d *Decl) string {
 
 // Str renders a type expression.
 func (t *Type) Str(q Qual) string {
+	if t.Alias != "" && !q.Canon {
+		if q.From == nil {
+			return t.Alias
+		}
+		return q.Subj + "." + t.Alias
+	}
 	switch t.Kind {
 	case Basic:
 		if q.Canon {
@@ -390,6 +406,9 @@ func (t *Type) Depth() int {
 
 // Ident turns the type into an identifier fragment (for function suffixes).
 func (t *Type) Ident() string {
+	if t.Alias != "" {
+		return t.Alias
+	}
 	switch t.Kind {
 	case Basic:
 		return strings.Title(t.Name)
